@@ -50,6 +50,7 @@ import (
 )
 
 type LsAccess struct {
+	FnLine  int // first line of the enclosing top-level function (race reports attribute inlined atomics to it)
 	Line    int
 	Write   bool
 	Fn      string
@@ -1459,9 +1460,10 @@ func (a *lsAn) analyzeFunc(fd *ast.FuncDecl, rel string, tbl *LsTable) {
 		for i := range raws {
 			r := &raws[i]
 			for _, c := range r.ctxs {
-				row := LsAccess{Line: line(r.node.Pos()), Write: r.cls.write, Fn: fd.Name.Name, Ctx: c.ctx.kind, Site: c.ctx.site, Multi: c.ctx.multi, Note: r.cls.note}
+				row := LsAccess{FnLine: line(fd.Pos()), Line: line(r.node.Pos()), Write: r.cls.write, Fn: fd.Name.Name, Ctx: c.ctx.kind, Site: c.ctx.site, Multi: c.ctx.multi, Note: r.cls.note}
 				if r.fr != fr {
 					row.Fn = r.fr.fd.Name.Name
+					row.FnLine = line(r.fr.fd.Pos())
 				}
 				// locks that really are one lock per instance of the variable: declared in D or outside it
 				var locks []string
@@ -1749,7 +1751,7 @@ func (p *lsPkg) analyzeStructs(kernel []string, tbl *LsTable) {
 				if cls.skip {
 					return true
 				}
-				row := LsAccess{Line: line(se.Pos()), Write: cls.write, Fn: tn + "." + fd.Name.Name, Ctx: "method", Multi: true, Note: cls.note}
+				row := LsAccess{FnLine: line(fd.Pos()), Line: line(se.Pos()), Write: cls.write, Fn: tn + "." + fd.Name.Name, Ctx: "method", Multi: true, Note: cls.note}
 				var locks []string
 				for k := range heldAt(se) {
 					locks = append(locks, k)
